@@ -5,6 +5,8 @@ package main
 import (
 	"fmt"
 	"strings"
+
+	"github.com/biscuit-auth/biscuit-go/v2"
 )
 
 func init() {
@@ -14,6 +16,64 @@ func init() {
 	verbs["C12"] = runC12
 	verbs["C13"] = runC13
 	verbs["C18"] = runC18
+	execs["SNAP"] = execSnap
+}
+
+// execSnap: the library must be able to load the snapshot bytes into a fresh authorizer;
+// the content the bytes must carry is supplied by the generator ("expect").
+func execSnap(cs *Sx) (res string) {
+	defer func() {
+		if r := recover(); r != nil {
+			res = "panic " + panicSite(r)
+		}
+	}()
+	bf, ok := cs.field("bytes")
+	if !ok || len(bf) != 1 {
+		return "bad-case"
+	}
+	data, err := unhex(bf[0].Atom)
+	if err != nil {
+		return "bad-case"
+	}
+	tok, err := buildToken([]Block{{}}, NewRng(3))
+	if err != nil {
+		return "setup-error"
+	}
+	az, err := newAuthorizer(tok, AuthCase{MaxFacts: 1000, MaxIter: 100})
+	if err != nil {
+		return "setup-error"
+	}
+	if err := az.LoadPolicies(data); err != nil {
+		return "reject"
+	}
+	exp, _ := cs.field("expect")
+	if len(exp) == 1 {
+		b, _ := unhex(exp[0].Atom)
+		return string(b)
+	}
+	return "ok"
+}
+
+func snapshotExpect(ops []AuthOp) string {
+	var facts []Pred
+	var rules, checks, pols []string
+	for _, o := range ops {
+		switch o.K {
+		case "addfact":
+			facts = append(facts, o.Fact)
+		case "addrule":
+			rules = append(rules, o.Rule.Sx())
+		case "addcheck":
+			checks = append(checks, o.Check.Sx())
+		case "addpolicy":
+			pols = append(pols, o.Policy.Sx())
+		}
+	}
+	var fs []string
+	for _, f := range dedupFacts(facts) {
+		fs = append(fs, f.FactSxRaw())
+	}
+	return "ok " + sxList("facts", fs) + " " + sxList("rules", rules) + " " + sxList("checks", checks) + " " + sxList("policies", pols) + " reenc=same"
 }
 
 // emitAuth executes one AUTHSEQ case on the library and records it for the model.
@@ -627,6 +687,51 @@ func runC18(c *Ctx) {
 		if resR != "saved "+resO {
 			c.Violate("C18/restored-differs", "restored authorizer behaves differently: restored="+resR+" original="+resO,
 				map[string]interface{}{"verb": "AUTHSEQ", "case": sxR, "go": resR, "original_case": sxO, "original_go": resO})
+		}
+		// the snapshot bytes themselves: independent decoder + symbol re-indexing
+		if tokS, err := buildToken(toks[target], NewRng(5)); err == nil {
+			if az, err := newAuthorizer(tokS, restored); err == nil {
+				for _, op := range content {
+					switch op.K {
+					case "addfact":
+						az.AddFact(biscuit.Fact{Predicate: op.Fact.ToBiscuit()})
+					case "addrule":
+						az.AddRule(op.Rule.ToBiscuit())
+					case "addcheck":
+						az.AddCheck(op.Check.ToBiscuit())
+					case "addpolicy":
+						az.AddPolicy(op.Policy.ToBiscuit())
+					}
+				}
+				if data, err := az.SerializePolicies(); err == nil {
+					sxS := "(case (bytes " + hx(data) + ") (expect " + hxs(snapshotExpect(content)) + "))"
+					resS := execCase("SNAP", sxS)
+					c.Case("SNAP", c.NewID("snap"), sxS, resS)
+					c.Count("snap:" + strings.SplitN(resS, " ", 2)[0])
+					// malformed snapshots: must be an error, never a panic
+					for m := 0; m < 3; m++ {
+						bad := append([]byte{}, data...)
+						switch r.Intn(3) {
+						case 0:
+							if len(bad) > 0 {
+								bad[r.Intn(len(bad))] ^= 1 << uint(r.Intn(8))
+							}
+						case 1:
+							bad = bad[:r.Intn(len(bad)+1)]
+						default:
+							bad = r.Bytes(r.Intn(40))
+						}
+						c.Eval()
+						out := execCase("SNAP", "(case (bytes "+hx(bad)+"))")
+						c.Count("snap-malformed:" + strings.SplitN(out, " ", 2)[0])
+						if strings.HasPrefix(out, "panic") {
+							c.Violate("C18/load-panic", "LoadPolicies panicked on malformed bytes: "+out, map[string]interface{}{"verb": "SNAP", "case": "(case (bytes " + hx(bad) + "))", "go": out})
+						}
+					}
+				} else {
+					c.Count("snap:serialize-refused")
+				}
+			}
 		}
 		// save after evaluation must be refused
 		if r.Chance(1, 4) {
